@@ -461,6 +461,12 @@ class C14(PropertyCheck):
                 for nb in (2, 3, 4):
                     for B, dyn in ((1, False), (2, True)):
                         yield {"kind": "params", "lens": list(lens), "nb": nb, "B": B, "dynamic": dyn}
+        # num_buckets outside what the loaders pass (they only call with > 1): one bucket, and the malformed 0 -
+        # an empty data set returns two empty maps BEFORE the division, a non-empty one divides by zero
+        for lens in ([], [2], [1, 3, 3], [2, 2, 5, 7]):
+            for dyn in (False, True):
+                yield {"kind": "params", "lens": lens, "nb": 1, "B": 2, "dynamic": dyn}
+                yield {"kind": "params", "lens": lens, "nb": 0, "B": 2, "dynamic": dyn, "malformed": "nb0"}
         for _ in range({"quick": 200, "thorough": 3000, "search": 2000}[tier]):
             n = rng.randrange(0, 14)
             hi = rng.choice((2, 4, 9, 30))
@@ -1629,6 +1635,12 @@ class C14(PropertyCheck):
         if "error" in impl:
             return [(f"harness-level exception {impl['error']}: {impl.get('message')}", None)]
         lens, B = case["lens"], case["B"]
+        if case.get("malformed") == "nb0" and lens:
+            # num_buckets=0 on a non-empty data set: the documented domain is >= 1, the division raises
+            if impl.get("err") != "ZeroDivisionError":
+                return [(f"num_buckets=0 on a non-empty data set did not raise ZeroDivisionError: {impl}",
+                         "C14.params.nb0")]
+            return []
         if "err" in impl:
             if impl["err"] == "ZeroDivisionError" and case["dynamic"] and 0 in lens:
                 # known finding: the documented formula has no value for a zero-length bucket bound
